@@ -10,11 +10,13 @@ code -> spec: harness.dslgen statements (all up to a depth bound) and each singl
               built on the real DSL; TraceStatements.tla decides every observation (verdict and schema) with WellFormed
 """
 import collections
+import concurrent.futures
 import itertools
 import json
 import multiprocessing
 import os
 import random
+import re
 import sys
 import threading
 import time
@@ -22,6 +24,7 @@ import time
 from harness import common, dslgen as g, tlc
 
 PROCS = int(os.environ.get('VERIF_PROCS') or 8)  # worker processes / TLC workers
+CHUNK = 4000        # observations per TraceStatements run
 FINDING_UNNAMED = 'schema-unnamed-output'
 FINDING_DUPNAME = 'schema-duplicate-output-names'
 
@@ -416,6 +419,12 @@ def explore(chk, name, depth, ast_depth, workers, procs):
     res = chk.tlc('Statements', cfg, workers=workers, env={'ALPHABET_FILE': apath}, timeout=3000)
     t1 = time.time()
     lines = res.json_prints()
+    # the harness does not parse the coverage line of a LET-wrapped action ("<Next line .. of module Statements (..)>: d:g")
+    m = re.search(r'^<Next line [^>]*>: (\d+):(\d+)', res.stdout, re.M)
+    if not m or int(m.group(2)) == 0:
+        raise tlc.MachineryError(f'Statements[{name}]: action Next never taken')
+    d0, g0 = chk.coverage.get('Statements.Next', (0, 0))
+    chk.coverage['Statements.Next'] = (d0 + int(m.group(1)), g0 + int(m.group(2)))
     res.stdout = ''
     res.printed = []
     if len(lines) != res.distinct:
@@ -504,28 +513,26 @@ def trace_validate(chk, items, procs, label):
     obs.append(dict(obs[ok_idx], res='grammar'))
     obs.append(dict(obs[bad_idx], res='ok', schema=[], schema_res='ok'))
     obs.append(dict(obs[ok_idx], schema=obs[ok_idx]['schema'][::-1]))
-    # several single-worker TLC runs side by side (registers need -workers 1)
-    parts = [obs[i::procs] for i in range(procs)]
-    index = [list(range(len(obs)))[i::procs] for i in range(procs)]
-    results = [None] * procs
+    # several single-worker TLC runs side by side (registers need -workers 1), at most CHUNK observations per run
+    nparts = max(procs, -(-len(obs) // CHUNK))
+    parts = [obs[i::nparts] for i in range(nparts)]
+    index = [list(range(len(obs)))[i::nparts] for i in range(nparts)]
 
     def run(p):
         path = common.write_json({'obs': parts[p]}, f'c07-{label}-{p}.json')
-        results[p] = tlc.run('TraceStatements', 'TraceStatements.cfg', workers=1, env={'TRACE_FILE': path},
-                             coverage=False, timeout=3000, heap='3g')
+        try:
+            return tlc.run('TraceStatements', 'TraceStatements.cfg', workers=1, env={'TRACE_FILE': path},
+                           coverage=False, timeout=3000, heap='2g')
+        finally:
+            os.remove(path)
 
-    threads = [threading.Thread(target=run, args=(p,)) for p in range(procs) if parts[p]]
-    for t in threads:
-        t.start()
-    for t in threads:
-        t.join()
+    with concurrent.futures.ThreadPoolExecutor(max_workers=procs) as pool:
+        results = list(pool.map(run, [p for p in range(nparts)]))
     t2 = time.time()
     verdicts = {}
-    for p in range(procs):
+    for p in range(nparts):
         if not parts[p]:
             continue
-        if results[p] is None:
-            raise tlc.MachineryError('TraceStatements run failed')
         orig, tlc.run = tlc.run, (lambda *a, _r=results[p], **k: _r)
         try:
             chk.tlc('TraceStatements', 'TraceStatements.cfg')  # accounting of the finished run
